@@ -485,6 +485,10 @@ impl CodegenContext {
         let path = self.current_scope.join(&id);
         if let Some(nx) = self.symbols.try_index(self.symbols.root, path) {
             self.symbols.remove(nx);
+            // The index of the removed symbol will be reused by the next symbol that is created, which should not inherit
+            // the definition and usages of this one
+            self.analysis
+                .remove_definition(&DefinitionType::Symbol(nx));
         }
     }
 
